@@ -117,8 +117,15 @@ InitBlur ==
          /\ cfg = [ng |-> ngv,
                    Hs |-> [f \in 1..Len(seq) |-> BlurCells[seq[f]].H],
                    bs |-> [f \in 1..Len(seq) |-> BlurCells[seq[f]].bounds], ppp |-> m,
-                   pos |-> [f \in 1..Len(PosSets[pi]) |->
+                   pos0 |-> [f \in 1..Len(PosSets[pi]) |->
                               [j \in 1..Len(PosSets[pi][f]) |-> VAdd(PosSets[pi][f][j], BlurCells[seq[f]].lo)]],
+                   \* every other configuration: unwrapped coordinates (particle j of frame f displaced by
+                   \* -2..3 whole cell vectors of the frame's cell along each periodic axis: the same system)
+                   pos |-> [f \in 1..Len(PosSets[pi]) |->
+                              [j \in 1..Len(PosSets[pi][f]) |->
+                                 LET p0 == VAdd(PosSets[pi][f][j], BlurCells[seq[f]].lo) IN
+                                 IF (cs + pi + sc) % 2 = 0 THEN p0
+                                 ELSE VAdd(p0, VecMat([k \in 1..d |-> m[k] * (((j + 2 * k + f) % 6) - 2)], BlurCells[seq[f]].H))]],
                    sig |-> SigCuts[sc][1], cut |-> SigCuts[sc][2]]
          /\ pc = FirstPoint(ngv)
          /\ acc = [slots |-> EmptySlots(ngv), nvis |-> 0]
@@ -132,6 +139,12 @@ InvImagesAreMinImage ==
           Hs == [i \in 1..Len(cfg.Hs[f]) |-> VScale(M, cfg.Hs[f][i])]
           v  == VSub(ScaledPoint(cfg.ng, cfg.bs[f], pc), VScale(M, cfg.pos[f][j]))
       IN  CgImages(Hs, v, cfg.ppp) = MinImage(Hs, v, cfg.ppp)
+\* unwrapped coordinates: whole cell vectors along periodic axes change no grid-particle distance
+InvBlurUnwrapInvariant ==
+  acc.nvis = 0 =>
+    \A f \in 1..Len(cfg.pos) : \A j \in 1..Len(cfg.pos[f]) :
+      GridDist2Set(cfg.ng, cfg.bs[f], cfg.Hs[f], cfg.ppp, pc, cfg.pos[f][j])
+        = GridDist2Set(cfg.ng, cfg.bs[f], cfg.Hs[f], cfg.ppp, pc, cfg.pos0[f][j])
 \* every frame's grid spans that frame's bounds: first point = lower corner, last point = upper corner
 \* (lower corner on an axis with a single point), and the bounds are those of the frame's cell
 InvGridSpansFrameBounds ==
